@@ -11,7 +11,9 @@ CONSTANTS NStyles,    \* number of style ids ("s1" .. "sN")
           YModes,     \* SpecEnum: how slot y's mask relates to slot x's:
                       \*   "free" any, "empty" nowhere, "all" everywhere, "compl" exactly where x is not, "same" where x is
           TailMode,   \* SpecEnum: what follows Load, Resolve, ToXML, Info on the same queried id:
-                      \*   "none" nothing; "clone" CloneDrop, CloneSwap, Resolve (on the copy), MutRes
+                      \*   "none" nothing; "clone" CloneDrop, CloneSwap, Resolve (on the copy), MutRes;
+                      \*   "rmr": the behaviour is Load, Resolve, <every registry-changing operation>, Resolve
+                      \*   (resolution must follow the registry: nothing remembered from an earlier call)
           Depth,      \* SpecGen: behaviour length
           OpNames     \* SpecMC/SpecGen: operation names explored
 
@@ -40,8 +42,19 @@ NextMC == \E op \in OpsOf(st) : st' = Apply(st, op) /\ hist' = <<op>>
 SpecMC == Init /\ [][NextMC]_vars
 MCView == st
 
+\* Generation (-simulate picks successors uniformly): queries and clone operations are given the
+\* weight ReadWeight through a dummy field w (ignored by the executor) so that a random prefix mixes
+\* registry changes and queries about evenly; the last operation of a behaviour is always a query or
+\* clone operation (TLC evaluates Emit on every successor, so each random prefix is completed by all
+\* of them).
+ReadWeight == 4
+GenOps(s, last) ==
+  IF last THEN {op \in OpsOf(s) : op.op \notin Mutators}
+  ELSE {op \in OpsOf(s) : op.op \in Mutators}
+       \cup {[op |-> n, q |-> q, w |-> w] : n \in OpNames \cap {"Resolve", "ToXML", "Info", "MutRes"}, q \in Qs, w \in 1..ReadWeight}
+       \cup {[op |-> n, w |-> w] : n \in OpNames \cap CloneOps, w \in 1..ReadWeight}
 NextGen == /\ Len(hist) < Depth
-           /\ \E op \in OpsOf(st) : st' = Apply(st, op) /\ hist' = Append(hist, op)
+           /\ \E op \in GenOps(st, Len(hist) = Depth - 1) : st' = Apply(st, op) /\ hist' = Append(hist, op)
 SpecGen == Init /\ [][NextGen]_vars
 
 \* ---- design-level statement of C14 on the reference machine -----------------------
@@ -89,10 +102,23 @@ CaseOf(bs, xs, ys, q) ==
     [op |-> "Resolve", q |-> q], [op |-> "ToXML", q |-> q], [op |-> "Info", q |-> q]>>
   \o [k \in 1..Len(TailOps) |-> IF TailOps[k] \in CloneOps THEN [op |-> TailOps[k]] ELSE [op |-> TailOps[k], q |-> q]]
 
+\* registry-changing operations whose y follows the same mode as the enumerated registry
+YFor(x, m) == CASE m = "free" -> BOOLEAN [] m = "empty" -> {FALSE} [] m = "all" -> {TRUE}
+                [] m = "compl" -> {~x} [] m = "same" -> {x} [] OTHER -> {}
+MutOpsEnum(m) ==
+       {[op |-> "AddStyle", s |-> i, b |-> b, x |-> x, y |-> y] : <<i, b, x, y>> \in
+            {t \in Ids \X Bs \X BOOLEAN \X BOOLEAN : t[4] \in YFor(t[3], m)}}
+  \cup {[op |-> "RemoveStyle", s |-> i] : i \in Qs}
+  \cup {[op |-> "Create", s |-> i, b |-> b] : i \in Ids, b \in Bs}
+RmrOf(bs, xs, ys, q, mu) ==
+  <<CaseOf(bs, xs, ys, q)[1], [op |-> "Resolve", q |-> q], mu, [op |-> "Resolve", q |-> q]>>
+
 InitEnum ==
   \E bs \in [Ids -> Bs], xs \in [Ids -> BOOLEAN], m \in YModes, q \in Qs :
     \E ys \in YOf(xs, m) :
-      /\ hist = CaseOf(bs, xs, ys, q)
+      /\ IF TailMode = "rmr"
+           THEN q \in Ids /\ \E mu \in MutOpsEnum(m) : hist = RmrOf(bs, xs, ys, q, mu)
+           ELSE hist = CaseOf(bs, xs, ys, q)
       /\ st = Apply(InitSt, hist[1])
 SpecEnum == InitEnum /\ [][UNCHANGED vars /\ FALSE]_vars
 
